@@ -58,8 +58,12 @@ func newFixture() *fixture {
 	}
 	forged.Hash, forged.IssuerSignature = fx.X.Sign(forged.GetMessage())
 	fx.c1x = forged
-	fx.labels = map[[32]byte]string{fx.fund.Hash: "fund", fx.c1.Hash: "c1", fx.s1.Hash: "s1", fx.c1x.Hash: "c1x", fx.m1.Hash: "m1"}
-	fx.byName = map[string]transaction.Transaction{"fund": fx.fund, "c1": fx.c1, "s1": fx.s1, "c1x": fx.c1x, "m1": fx.m1}
+	// replays under a foreign hash: the content and signatures of s1 / c1, but a Hash field that is not their digest
+	s1h, c1h := fx.s1, fx.c1
+	s1h.Hash[0] ^= 0xff
+	c1h.Hash[31] ^= 0x0f
+	fx.labels = map[[32]byte]string{fx.fund.Hash: "fund", fx.c1.Hash: "c1", fx.s1.Hash: "s1", fx.c1x.Hash: "c1x", fx.m1.Hash: "m1", s1h.Hash: "s1h", c1h.Hash: "c1h"}
+	fx.byName = map[string]transaction.Transaction{"fund": fx.fund, "c1": fx.c1, "s1": fx.s1, "c1x": fx.c1x, "m1": fx.m1, "s1h": s1h, "c1h": c1h}
 	return fx
 }
 
